@@ -1,362 +1,221 @@
-import GardenVerif.Lemmas.Resume
+import GardenVerif.Lemmas.IncrementalGlue
 /-!
 C11 — Incremental session input equals running it as one program.
 
 Session model: `Resume.request` / `Resume.incremental` / `Resume.batch` (Model/Resume.lean) on top of
-the machine model M4. Full statement (NOT proved here, see below):
+the machine model M4 (`Machine.step`, unchanged).
 
-  theorem incremental_eq_batch (is : List Input) (hfresh : FreshNames is) (hfrag : NoEscape is)
-      (h : incremental fuel sessionInit is = .value s v) :
-      ∃ fuel' s', batch fuel' sessionInit is = .value s' v
+FULL STATEMENT (not proved in this form):
 
-where `FreshNames` = the defined function / enum / variant names of all inputs are pairwise distinct and
-distinct from prelude enum variants and built-in names (decidable: `freshFuns` below is its function
-part), "error-free" = every request of the incremental run answers `.value` (decidable by running the
-model), and `NoEscape` = no input ends in a `for` loop, and no toplevel `return` or loop-less
-`break`/`continue` is executed (those drop the REST of frame 0's pending entries, which in the
-concatenated run includes the later inputs: `return 5` / `7` answers 7 incrementally and 5 as one input —
-by design; a trailing `for` stops at the eval-up-to special case before its body runs — finding
-C11/trailing-for-not-run).
+  theorem incremental_eq_batch (is : List Input) (hfresh : FreshNames is)
+      (h : incremental fuel sessionInit is = .value s (some v)) (hne : NoEscape is) :
+      ∃ fuel' s', batch fuel' sessionInit is = .value s' (some v)
 
-PROVED (`_partial`): the first half of the proof idea, **definition monotonicity**, through all three
-levels — `dispatch_mono_partial` (one `eval_expr` dispatch), `step_mono` (one loop iteration) and
-`eval_mono_partial`: an evaluation that ends with a value under program `p` ends with the same value,
-after the same number of steps, in the same state, under any `p'` that adds FUNCTION definitions with
-fresh names (`ext_of_fresh`, with `freshFuns` the decidable freshness predicate; variable lookup
-`getVar_mono`, pattern lookup `matchCases_mono`, function lookup and `string_repr` in `evalCall_mono`,
-`display_ext`); `request_defs_upfront_partial` instantiates it for one `run` request. This is what makes
-"load the later inputs' definitions first" unobservable to the earlier inputs. MISSING:
-(a) the same for added ENUM definitions (needs the invariant that every enum value on the stacks has a
-defined type, so that `display` / `variantName` agree); (b) the sequencing half: frame 0's pending
-entries of the concatenated run = the current input's entries ++ the later inputs' entries, and
-`dispatch` is parametric in that tail except for `return` / `break` / `continue`; (c) gluing the two
-over `incremental`. (a)–(c) are exercised by the harness only (model `c11_session_run`, both replies,
-vs real sessions).
+PROVED: `incremental_eq_batch_partial` — for every history `is` (any number of inputs, any sizes) with
+* `histOK`: the FUNCTION names defined by the inputs are fresh (not yet resolvable when they are loaded:
+  no function, enum variant or built-in of that name — decidable), and ENUM definitions occur in the first
+  input only;
+* `canon b fuel sessionInit is = some (C, some v)`: the REFERENCE RUN of the history answers `v`
+  (decidable by running it). The reference run is the incremental run with frame 0's value stack
+  emptied at the start of every request and these tests on the way (`Incr.evalC`): no request errs, crashes
+  or runs out of fuel; every request comes to rest at the toplevel frame with nothing pending (this
+  excludes the eval-up-to special case that leaves a trailing `for` loop pending — known finding
+  C11/trailing-for-not-run — and a stop inside a call); in every request but the last no step drops
+  the rest of frame 0's pending entries (toplevel `return`, loop-less `break`/`continue`: in the
+  concatenated input those would drop the LATER inputs, by design) or touches the node `b` the
+  concatenated run stops at (`b` = id of the last expression of the last input; ids are unique in the
+  real session);
+BOTH the real incremental session AND the concatenated request answer `v`:
+  `(∃ s, incremental fuel sessionInit is = .value s (some v)) ∧ (∃ fuel' s', batch fuel' sessionInit is = .value s' (some v))`.
+Moreover the two final states hold the same definitions and the same toplevel variables
+(`incremental_eq_batch_state_partial`).
+
+The proof is a simulation in both directions from the reference run:
+* (b) sequencing — **frame parametricity** of the evaluator (`Incr.dispatch_fx`, all 21 node kinds:
+  a dispatch that does not crash on a frame does the same on the frame with further pending entries and
+  further values BELOW its own), lifted to `step` (`Incr.step_diff`: other stop id + later inputs'
+  entries below; `Incr.step_same`: only values below) and to whole requests (`Incr.seg_diff`, `seg_same`);
+* definition monotonicity (`C11.eval_mono_partial` …, Lemmas/IncrementalMono.lean) for the definitions the
+  concatenated request loads up front;
+* (c) gluing by induction over the history (`Incr.incremental_of_canon`, `Incr.batch_of_canon`).
+
+WHAT IS MISSING for the full statement (hence `_partial`):
+1. (a) definition monotonicity for added ENUM definitions (`C11.Ext.enums` demands equal enums: `display`
+   looks variant names up in the program, so one needs the invariant that every enum value on the stacks
+   has a defined type). Here: enums only in the first input.
+2. the hypothesis is on the reference run instead of on `incremental` itself. The two differ only in what
+   lies BELOW the values a request pushes on frame 0's value stack; for programs with value-stack
+   discipline (C02: `MachineDiscipline.okProg`, i.e. no `break`/`continue` in operand position) the
+   reference run is error-free iff the incremental run is — this link to C02's invariant is not made.
+Both are exercised by the harness (model vs real sessions, incremental and batch replies).
 -/
 set_option linter.unusedVariables false
 set_option linter.unusedSimpArgs false
 
 namespace C11
-open Machine Resume ResumeL
+open Machine Resume Incr
 
-/-- `p'` = `p` plus function definitions: same enums and toplevel; every function `p` resolves
-resolves to the same definition, every name `p` resolves resolves to the same value. -/
-structure Ext (p p' : Program) : Prop where
-  enums : p'.enums = p.enums
-  funs : ∀ n d, p.funs.find? (fun f => f.name == n) = some d → p'.funs.find? (fun f => f.name == n) = some d
-  names : ∀ n v, nsLookup p n = some v → nsLookup p' n = some v
+/-- Decidable well-formedness of a history w.r.t. definitions: when an input has been loaded, none of
+the function names of the LATER inputs is resolvable yet (function, enum variant, built-in), and the
+later inputs define no enums. -/
+def histOK (p : Program) : List Input → Bool
+  | [] => true
+  | i :: rest =>
+    freshFuns (loadP p i) (rest.flatMap (·.funs)) && rest.all (fun j => j.enums.isEmpty) &&
+      histOK (loadP p i) rest
 
-/-- Decidable freshness of added function definitions: none of the new names is already a function,
-an enum variant (user or prelude) or a built-in of `p`. -/
-def freshFuns (p : Program) (extra : List FunDef) : Bool :=
-  extra.all fun d => (nsLookup p d.name).isNone
+theorem flatMap_enums_nil : ∀ (rest : List Input), rest.all (fun j => j.enums.isEmpty) = true →
+    rest.flatMap (·.enums) = []
+  | [], _ => rfl
+  | j :: js, h => by
+    simp only [List.all_cons, Bool.and_eq_true] at h
+    have h1 : j.enums = [] := by simpa using h.1
+    simp [List.flatMap_cons, h1, flatMap_enums_nil js h.2]
 
-theorem find_append_mono (l extra : List FunDef) (n : String) (d : FunDef)
-    (h : l.find? (fun f => f.name == n) = some d) :
-    (l ++ extra).find? (fun f => f.name == n) = some d := by
-  simp [List.find?_append, h]
+theorem extAll_of_histOK : ∀ (is : List Input) (p : Program), histOK p is = true →
+    ExtAll (loadP p (concatInputs is)) p is
+  | [], p, _ => trivial
+  | i :: rest, p, h => by
+    simp only [histOK, Bool.and_eq_true] at h
+    obtain ⟨⟨hf, he⟩, hr⟩ := h
+    have hen := flatMap_enums_nil rest he
+    refine ⟨?_, ?_⟩
+    · have hx := ext_of_fresh (loadP p i) (rest.flatMap (·.funs)) hf
+      have : loadP p (concatInputs (i :: rest)) =
+          { loadP p i with funs := (loadP p i).funs ++ rest.flatMap (·.funs) } := by
+        simp [loadP, concatInputs, List.flatMap_cons, List.append_assoc, hen]
+      rw [this]; exact hx
+    · rw [loadP_concat_cons]; exact extAll_of_histOK rest (loadP p i) hr
 
-/-- Adding fresh function definitions is an extension. -/
-theorem ext_of_fresh (p : Program) (extra : List FunDef) (h : freshFuns p extra = true) :
-    Ext p { p with funs := p.funs ++ extra } := by
-  refine ⟨rfl, fun n d hd => find_append_mono _ _ _ _ hd, ?_⟩
-  intro n v hv
-  unfold nsLookup at hv ⊢
-  cases hf : p.funs.find? (fun f => f.name == n) with
-  | some d =>
-    simp only [hf] at hv
-    simp [List.find?_append, hf]
-    simpa using hv
-  | none =>
-    simp only [hf] at hv
-    have hn : extra.find? (fun f => f.name == n) = none := by
-      rw [List.find?_eq_none]
-      intro d hd hdn
-      have := List.all_eq_true.mp h d hd
-      have hname : d.name = n := by simpa using hdn
-      unfold nsLookup at this
-      rw [hname, hf] at this
-      revert this hv
-      cases findVariant (p.enums ++ preludeEnums) n <;> simp
-      intro a _; exact a
-    simp [List.find?_append, hf, hn]
-    simpa using hv
+/-- the last expression of the concatenation is the last expression of the last input -/
+theorem concat_last (b fuel : Nat) : ∀ (is : List Input) (C C' : State) (v : Value),
+    canon b fuel C is = some (C', some v) → LastIs b is →
+    ∃ last, (is.flatMap (·.exprs)).getLast? = some last ∧ last.id = b
+  | [], C, C', v, h, _ => by simp [canon] at h
+  | [i], C, C', v, h, hl => by
+    simp only [canon, requestC] at h
+    cases hlast : i.exprs.getLast? with
+    | none => simp [hlast] at h
+    | some last => exact ⟨last, by simpa using hlast, hl last hlast⟩
+  | i :: i2 :: rest, C, C', v, h, hl => by
+    simp only [canon] at h
+    cases hq : requestC (some b) fuel C i with
+    | none => simp [hq] at h
+    | some r =>
+      obtain ⟨C1, ov1⟩ := r
+      simp only [hq] at h
+      obtain ⟨last, h1, h2⟩ := concat_last b fuel (i2 :: rest) C1 C' v h hl
+      refine ⟨last, ?_, h2⟩
+      rw [List.flatMap_cons, List.getLast?_append, h1]; rfl
 
-theorem getVar_mono {p p' : Program} (hx : Ext p p') (f : Frame) (n : String) (v : Value)
-    (h : getVar p f n = some v) : getVar p' f n = some v := by
-  unfold getVar at h ⊢
-  split <;> simp_all
-  exact hx.names _ _ h
+theorem sessionInit_Rest : Rest sessionInit := ⟨_, rfl, rfl⟩
 
+theorem LF_sessionInit : LF [] [] sessionInit.stopAt sessionInit = sessionInit := by
+  simp [LF, sessionInit, init, mapLast, fx, initFrame]
 
-theorem variantName_ext (p p' : Program) (h : p'.enums = p.enums) (ty : String) (idx : Nat) :
-    variantName p' ty idx = variantName p ty idx := by
-  unfold variantName; rw [h]
+/-- **Incremental = batch, with the final states** (`_partial`: see the header for the two missing
+links). For every history whose reference run answers `v`: the incremental session answers `v` to its
+last request; the concatenation of all inputs submitted as ONE request answers `v`; and the two sessions
+end with the same definitions (`prog`) and the same variables (binding blocks of every frame — there is
+one frame, the toplevel). -/
+theorem incremental_eq_batch_state_partial (is : List Input) (b fuel : Nat) (C : State) (v : Value)
+    (hdefs : histOK sessionInit.prog is = true) (hb : LastIs b is)
+    (hc : canon b fuel sessionInit is = some (C, some v)) :
+    ∃ (si sb : State) (fuel' : Nat),
+      incremental fuel sessionInit is = .value si (some v) ∧
+      batch fuel' sessionInit is = .value sb (some v) ∧
+      sb.prog = si.prog ∧ sb.frames.map (·.blocks) = si.frames.map (·.blocks) ∧
+      sb.frames.length = 1 := by
+  obtain ⟨RI', hi⟩ := incremental_of_canon b fuel is sessionInit C (some v) [] sessionInit_Rest hc
+  rw [LF_sessionInit] at hi
+  have hx := extAll_of_histOK is sessionInit.prog hdefs
+  obtain ⟨last, hlast, hid⟩ := concat_last b fuel is sessionInit C v hc hb
+  obtain ⟨m, RB', hm⟩ := batch_of_canon b fuel (loadP sessionInit.prog (concatInputs is)) is sessionInit C v
+    [vUnit] sessionInit_Rest hc hx hb
+  have hbatch : batch m sessionInit is =
+      .value { LF [] RB' (some b) (withProg (loadP sessionInit.prog (concatInputs is)) C) with stopAt := none }
+        (some v) := by
+    unfold batch request
+    have hl : (concatInputs is).exprs.getLast? = some last := hlast
+    simp only [hl]
+    have hst : ({ setExprs (load sessionInit (concatInputs is)) (concatInputs is).exprs with
+          stopAt := some last.id } : State) =
+        LFend (allExprs is) [vUnit] (some b) (withProg (loadP sessionInit.prog (concatInputs is)) sessionInit) := by
+      simp [setExprs, load, LFend, withProg, sessionInit, init, initFrame, allExprs, concatInputs, loadP, hid]
+    rw [hst, hm]
+    simp [load, sessionInit, init]
+  have hrest : Rest C := by
+    cases is with
+    | nil => simp [canon] at hc
+    | cons i rest =>
+      -- every request leaves the reference run at rest
+      have : ∀ (l : List Input) (C0 C1 : State) (ov : Option Value), Rest C0 →
+          canon b fuel C0 l = some (C1, ov) → Rest C1 := by
+        intro l
+        induction l with
+        | nil => intro C0 C1 ov hr h; simp [canon] at h; obtain ⟨h1, _⟩ := h; subst h1; exact hr
+        | cons j js ih =>
+          intro C0 C1 ov hr h
+          cases js with
+          | nil => simp only [canon] at h; exact requestC_Rest _ _ _ _ _ _ hr h
+          | cons j2 js2 =>
+            simp only [canon] at h
+            cases hq : requestC (some b) fuel C0 j with
+            | none => simp [hq] at h
+            | some r =>
+              obtain ⟨C2, ov2⟩ := r
+              simp only [hq] at h
+              exact ih C2 C1 ov (requestC_Rest _ _ _ _ _ _ hr hq) h
+      exact this _ _ _ _ sessionInit_Rest hc
+  obtain ⟨fc, hfc, _⟩ := hrest
+  refine ⟨_, _, m, hi, hbatch, ?_, ?_, ?_⟩
+  · simp [LF, withProg, canon_prog b fuel is sessionInit C (some v) hc]
+  · simp [LF, withProg, mapLast_blocks]
+  · simp [LF, withProg, hfc, mapLast]
 
-mutual
-theorem display_ext (p p' : Program) (h : p'.enums = p.enums) : (v : Value) → display p' v = display p v
-  | .int v => by simp [display]
-  | .str s => by simp [display]
-  | .list items => by simp [display, displayList_ext p p' h items]
-  | .tuple items => by simp [display, displayList_ext p p' h items]
-  | .enumV ty idx none => by simp [display, variantName_ext p p' h]
-  | .enumV ty idx (some v) => by simp [display, variantName_ext p p' h, display_ext p p' h v]
-  | .enumC ty idx => by simp [display, variantName_ext p p' h]
-  | .closure .. => by simp [display]
-  | .fn n => by simp [display]
-  | .builtin n => by simp [display]
-theorem displayList_ext (p p' : Program) (h : p'.enums = p.enums) :
-    (l : List Value) → displayList p' l = displayList p l
-  | [] => by simp [displayList]
-  | v :: vs => by simp [displayList, display_ext p p' h v, displayList_ext p p' h vs]
-end
+/-- **Incremental = batch** (`_partial`: see the header for the two missing links). For every
+history whose reference run answers `v`: the incremental session answers `v` to its last request, and
+the concatenation of all inputs submitted as ONE request answers `v`. -/
+theorem incremental_eq_batch_partial (is : List Input) (b fuel : Nat) (C : State) (v : Value)
+    (hdefs : histOK sessionInit.prog is = true) (hb : LastIs b is)
+    (hc : canon b fuel sessionInit is = some (C, some v)) :
+    (∃ s, incremental fuel sessionInit is = .value s (some v)) ∧
+    (∃ fuel' s', batch fuel' sessionInit is = .value s' (some v)) := by
+  obtain ⟨si, sb, fuel', h1, h2, _⟩ := incremental_eq_batch_state_partial is b fuel C v hdefs hb hc
+  exact ⟨⟨si, h1⟩, ⟨fuel', sb, h2⟩⟩
 
-theorem matchCases_mono {p p' : Program} (hx : Ext p p') (f : Frame) (used : Bool) (ty : String) (idx : Nat)
-    (pl : Option Value) : ∀ (cases : List Case) (f' : Frame),
-    matchCases p f used ty idx pl cases = .ok f' → matchCases p' f used ty idx pl cases = .ok f' := by
-  intro cases
-  induction cases with
-  | nil => intro f' h; simp [matchCases] at h
-  | cons c rest ih =>
-    intro f' h
-    cases c with
-    | mk variant dest body =>
-      unfold matchCases at h ⊢
-      by_cases hv : (variant == "_") = true
-      · simp only [hv, if_true] at h ⊢; exact h
-      · simp only [hv, if_false] at h ⊢
-        cases hg : getVar p f variant with
-        | none => simp [hg] at h
-        | some pv =>
-          rw [getVar_mono hx f variant pv hg]
-          simp only [hg] at h ⊢
-          cases hk : patKey pv with
-          | none => simp [hk] at h
-          | some pr =>
-            obtain ⟨pty, pidx⟩ := pr
-            simp only [hk] at h ⊢
-            by_cases hc : (ty == pty && idx == pidx) = true
-            · simp only [hc, if_true] at h ⊢
-              cases hb : bindPayload pl dest with
-              | none => simp only [hb] at h ⊢; exact ih _ h
-              | some r =>
-                cases r with
-                | ok bs => simp only [hb] at h ⊢; exact h
-                | error er => simp [hb] at h
-            · simp only [hc, if_false] at h ⊢
-              exact ih _ h
+-- ------------------------------------------------------------------ non-vacuity
 
-def fails : Disp → Bool
-  | .err .. => true
-  | .panic _ => true
+/-- `fun f(x) { x + 1 }  let a = 1` -/
+def in1 : Input :=
+  { funs := [⟨"f", ["x"], [.binop 1 true .add (.var 2 true "x") (.int 3 true 1)]⟩], enums := [],
+    exprs := [.letE 4 true (.sym "a") (.int 5 true 1)] }
+/-- `f(a)` — ends with the return of a user function (the incremental request does not push the value,
+the concatenated run does) -/
+def in2 : Input := { funs := [], enums := [], exprs := [.call 6 true (.var 7 true "f") [.var 8 true "a"]] }
+/-- `fun g() { 7 }  a + g()` — a definition that the concatenated request loads before input 1 runs -/
+def in3 : Input :=
+  { funs := [⟨"g", [], [.int 9 true 7]⟩], enums := [],
+    exprs := [.binop 10 true .add (.var 11 true "a") (.call 12 true (.var 13 true "g") [])] }
+
+def answersInt (k : Int64) : Option (State × Option Value) → Bool
+  | some (_, some (.int n)) => n == k
   | _ => false
 
+theorem answersInt_spec (k : Int64) (r : Option (State × Option Value)) (h : answersInt k r = true) :
+    ∃ C, r = some (C, some (.int k)) := by
+  match r, h with
+  | some (C, some (.int n)), h =>
+    have : n = k := by simpa [answersInt] using h
+    exact ⟨C, by rw [this]⟩
 
-theorem evalCall_mono {p p' : Program} (hx : Ext p p') (f : Frame) (id : Nat) (used : Bool) (n : Nat)
-    (h : fails (evalCall p f id used n) = false) : evalCall p' f id used n = evalCall p f id used n := by
-  unfold evalCall at h ⊢
-  cases hp : popN n f.values with
-  | none => rfl
-  | some pr =>
-    obtain ⟨args, vals⟩ := pr
-    simp only [hp] at h ⊢
-    cases vals with
-    | nil => rfl
-    | cons recv vals =>
-      simp only at h ⊢
-      cases recv with
-      | fn name =>
-        simp only at h ⊢
-        cases hf : p.funs.find? (fun d => d.name == name) with
-        | none => simp [hf, fails] at h
-        | some d => rw [hx.funs name d hf]
-      | builtin name =>
-        simp only [display_ext p p' hx.enums]
-      | _ => rfl
-
-/-- **`dispatch` is monotone in the program**: a step that neither fails nor crashes under `p` does
-exactly the same under any extension `p'` of `p` by fresh function definitions. -/
-theorem dispatch_mono_partial {p p' : Program} (hx : Ext p p') (f : Frame) (st : St) (e : Expr)
-    (h : fails (dispatch p f st e) = false) : dispatch p' f st e = dispatch p f st e := by
-  cases e
-  case var id u n =>
-    simp only [dispatch] at h ⊢
-    cases hg : getVar p f n with
-    | none => simp [hg, fails] at h
-    | some v => simp [getVar_mono hx f n v hg]
-  case update id u isAdd name inner =>
-    simp only [dispatch] at h ⊢
-    by_cases hs : (st != St.E) = true
-    · simp [hs]
-    · simp only [hs, if_false] at h ⊢
-      cases hg : getVar p f name with
-      | none => simp [hg, fails] at h
-      | some v => rw [getVar_mono hx f name v hg]
-  case matchE id u scrut cases =>
-    simp only [dispatch] at h ⊢
-    cases st <;> simp only at h ⊢
-    all_goals (
-      revert h
-      split
-      · split
-        · intro h
-          split at h
-          · rename_i hm; rw [matchCases_mono hx _ _ _ _ _ _ _ hm]
-          · simp [fails] at h
-        · intro _; rfl
-      · intro _; rfl)
-  case call id u recv args =>
-    simp only [dispatch] at h ⊢
-    cases st <;> simp only at h ⊢
-    exact evalCall_mono hx f _ _ _ h
-  all_goals simp only [dispatch]
-
--- ------------------------------------------------------------------ lifting to `step` and `eval`
-
-/-- The same machine state under another program. -/
-def withProg (p' : Program) (s : State) : State := { s with prog := p' }
-
-/-- The step neither failed, crashed nor left the fragment. -/
-def okStep : StepResult → Bool
-  | .cont _ => true
-  | .done _ _ => true
-  | _ => false
-
-theorem stopCheck_withProg (p' : Program) (a : State) (f : Frame) (st : St) (e : Expr) :
-    stopCheck (withProg p' a) f st e = C08.mapState (withProg p') (stopCheck a f st e) := by
-  have hs : (withProg p' a).stopAt = a.stopAt := rfl
-  unfold stopCheck
-  rw [hs]
-  by_cases h1 : (a.stopAt == some e.id) = true
-  · rw [if_pos h1, if_pos h1]
-    by_cases h2 : doneSub st e = true
-    · rw [if_pos h2, if_pos h2]; cases f.values <;> simp [C08.mapState]
-    · rw [if_neg h2, if_neg h2]
-      split <;> (try split) <;> simp [C08.mapState]
-  · rw [if_neg h1, if_neg h1]; simp [C08.mapState]
-
-theorem setTop_withProg (p' : Program) (a : State) (f : Frame) :
-    setTop (withProg p' a) f = withProg p' (setTop a f) := by
-  unfold setTop withProg; cases hf : a.frames <;> simp [hf]
-
-/-- **`step` is monotone in the program**: a step that continues or finishes under `s.prog` does the
-same, with the same successor state, under any extension by fresh function definitions. -/
-theorem step_mono (s : State) (p' : Program) (hx : Ext s.prog p') (h : okStep (step s) = true) :
-    step (withProg p' s) = C08.mapState (withProg p') (step s) := by
-  unfold step at h ⊢
-  simp only [withProg] at ⊢
-  match hf : s.frames with
-  | [] => simp [hf, C08.mapState, withProg]
-  | f :: callers =>
-    simp only [hf] at h ⊢
-    match he : f.exprs with
-    | [] =>
-      simp only [he] at h ⊢
-      cases callers with
-      | nil => cases hv : f.values <;> simp [hv, C08.mapState, setTop, hf, withProg]
-      | cons caller rest =>
-        cases hv : f.values with
-        | nil => simp [hv, C08.mapState, withProg]
-        | cons v vs =>
-          simp only [hv]
-          by_cases hc : (f.callerId.isSome && s.stopAt == f.callerId) = true <;>
-            simp [hc, C08.mapState, withProg]
-    | (st, e0) :: rest =>
-      simp only [he] at h ⊢
-      by_cases c1 : (s.interrupted || s.interruptAt.contains (s.ticks + 1)) = true
-      · rw [if_pos c1] at h; simp [okStep] at h
-      · rw [if_neg c1] at h
-        by_cases c2 : limitReached s.tickLimit (s.ticks + 1) = true
-        · rw [if_pos c2] at h; simp [okStep] at h
-        · rw [if_neg c2] at h
-          by_cases c3 : limitExceeded s.stackLimit (f :: callers).length = true
-          · rw [if_pos c3] at h; simp [okStep] at h
-          · rw [if_neg c3] at h
-            simp only [c1, c2, c3, if_false, Bool.false_eq_true]
-            cases hfl : fails (dispatch s.prog { f with exprs := rest } st e0) with
-            | true =>
-              revert h hfl
-              cases dispatch s.prog { f with exprs := rest } st e0 <;> simp [fails, okStep]
-            | false =>
-              rw [dispatch_mono_partial hx _ _ _ hfl]
-              cases hd : dispatch s.prog { f with exprs := rest } st e0 with
-              | ok f' =>
-                have := stopCheck_withProg p' (setTop ({ s with ticks := s.ticks + 1, interrupted := false } : State) f') f' st e0
-                simpa [withProg, setTop, hf, c1] using this
-              | okOut f' o =>
-                have := stopCheck_withProg p' (setTop ({ s with ticks := s.ticks + 1, out := s.out ++ o, interrupted := false } : State) f') f' st e0
-                simpa [withProg, setTop, hf, c1] using this
-              | newFrame f' callee => simp [C08.mapState, withProg]
-              | err f' st' vals er => simp [hd, fails] at hfl
-              | panic site => simp [hd, fails] at hfl
-              | unsupported w => simp [C08.mapState]
-
-theorem step_cont_prog (s s' : State) (h : step s = .cont s') : s'.prog = s.prog := by
-  unfold step at h
-  match hf : s.frames with
-  | [] => simp [hf] at h
-  | f :: callers =>
-    simp only [hf] at h
-    match he : f.exprs with
-    | [] =>
-      simp only [he] at h
-      cases callers with
-      | nil => cases hv : f.values <;> simp [hv] at h
-      | cons caller rest =>
-        cases hv : f.values with
-        | nil => simp [hv] at h
-        | cons v vs => simp only [hv] at h; split at h <;> simp at h; subst h; rfl
-    | (st, e0) :: rest =>
-      simp only [he] at h
-      repeat' split at h
-      all_goals (try (unfold stopCheck at h; repeat' split at h))
-      all_goals (try (simp at h))
-      all_goals (try (subst h; simp [setTop, hf]))
-
-/-- **`eval` is monotone in the program** (`_partial`: function definitions only): an evaluation
-that ends with a value under `s.prog` ends with the same value after the same number of steps, in
-the same state, under any extension of the program by fresh function definitions. -/
-theorem eval_mono_partial (p' : Program) : ∀ (n : Nat) (s s' : State) (v : Value),
-    Ext s.prog p' → Resume.eval n s = .done s' v →
-    Resume.eval n (withProg p' s) = .done (withProg p' s') v := by
-  intro n
-  induction n with
-  | zero => intro s s' v hx h; simp [Resume.eval] at h
-  | succ n ih =>
-    intro s s' v hx h
-    simp only [Resume.eval] at h ⊢
-    cases hs : step s with
-    | cont s1 =>
-      simp only [hs] at h
-      have hm := step_mono s p' hx (by simp [hs, okStep])
-      rw [hs] at hm
-      simp only [hm, C08.mapState]
-      exact ih s1 s' v (by rw [step_cont_prog s s1 hs]; exact hx) h
-    | done s1 v1 =>
-      simp only [hs] at h
-      have hm := step_mono s p' hx (by simp [hs, okStep])
-      rw [hs] at hm
-      simp only [hm, C08.mapState]
-      simp at h
-      obtain ⟨h1, h2⟩ := h
-      subst h1 h2
-      rfl
-    | error s1 e => simp [hs] at h
-    | panic site => simp [hs] at h
-    | unsupported w => simp [hs] at h
-
-/-- Corollary for one `run` request: loading further FUNCTION definitions with fresh names before
-the request does not change its value. -/
-theorem request_defs_upfront_partial (fuel : Nat) (s s' : State) (exprs : List Expr) (last : Expr)
-    (v : Value) (extra : List FunDef) (hfresh : freshFuns s.prog extra = true)
-    (h : Resume.eval fuel { setExprs s exprs with stopAt := some last.id } = .done s' v) :
-    Resume.eval fuel (withProg { s.prog with funs := s.prog.funs ++ extra }
-        { setExprs s exprs with stopAt := some last.id }) =
-      .done (withProg { s.prog with funs := s.prog.funs ++ extra } s') v := by
-  apply eval_mono_partial
-  · have : ({ setExprs s exprs with stopAt := some last.id } : State).prog = s.prog := by
-      unfold setExprs; cases s.frames <;> rfl
-    rw [this]; exact ext_of_fresh s.prog extra hfresh
-  · exact h
+/-- The hypotheses are satisfiable by a history that exercises a definition loaded early, a request
+ending in a call, and a toplevel variable used across requests: both sessions answer 8. -/
+example :
+    (∃ s, incremental 60 sessionInit [in1, in2, in3] = .value s (some (.int 8))) ∧
+    (∃ fuel' s', batch fuel' sessionInit [in1, in2, in3] = .value s' (some (.int 8))) := by
+  obtain ⟨C, hc⟩ := answersInt_spec 8 (canon 10 60 sessionInit [in1, in2, in3]) (by decide)
+  exact incremental_eq_batch_partial [in1, in2, in3] 10 60 C (.int 8) (by decide)
+    (by intro last hl; simp [in3] at hl; subst hl; rfl) hc
 
 end C11
